@@ -149,7 +149,7 @@ def qrInner (leg0 : Leg) (mask : List Bool) (o : QrOpts) : List Int × Leg :=
   let mods := leg0.mods
   let pr := leg0.project mask
   let inner0 := if o.complete then leg0 else pr.2.2
-  let qQ := match o.qtotalQ with | some q => some (makeValid mods q) | none => none
+  let qQ := o.qtotalQ.map (makeValid mods)
   let inner1 := match qQ with
     | some q => { inner0 with charges := inner0.charges.map (fun c => makeValid mods (csub c (cscale inner0.qconj q))),
                               sorted := false }
@@ -160,21 +160,26 @@ def qrInner (leg0 : Leg) (mask : List Bool) (o : QrOpts) : List Int × Leg :=
     else inner1
   (pr.1, inner)
 
+/-- `(q_block, r_block)` of one stored block, after the optional phase fix -/
+def qrFac [Zero α] [Mul α] (F : Nat → Blk α → Mat α × Mat α) (phase conj : α → α) (o : QrOpts) (bi : Blk α × Nat) :
+    Mat α × Mat α :=
+  let f := F bi.2 bi.1
+  if o.posDiag then posDiagFix phase conj f.1 f.2 else f
+
 /-- the part of `qr` between `as_completely_blocked` and `split_legs` -/
 def qrWorker [Zero α] [One α] [Mul α] (a : BMat α) (F : Nat → Blk α → Mat α × Mat α) (phase conj : α → α)
     (o : QrOpts) : QrOut α :=
   let mods := a.leg0.mods
   -- per stored block: factors (after the optional phase fix); with a cutoff empty `q` blocks are skipped
   let facs := a.blocks.zipIdx.filterMap (fun bi =>
-    let f := F bi.2 bi.1
-    if o.cutoff && (f.1.nrows * f.1.ncols == 0) then none
-    else some (bi.1, if o.posDiag then posDiagFix phase conj f.1 f.2 else f))
+    if o.cutoff && ((F bi.2 bi.1).1.nrows * (F bi.2 bi.1).1.ncols == 0) then none
+    else some (bi.1, qrFac F phase conj o bi))
   let mask := facs.foldl (fun m t => maskSet m (a.leg0.slices.getD t.1.qi 0) t.2.1.ncols)
                 (List.replicate a.leg0.indLen false)
   let mi := qrInner a.leg0 mask o
   let mapQ := mi.1
   let inner := mi.2
-  let qQ := match o.qtotalQ with | some q => some (makeValid mods q) | none => none
+  let qQ := o.qtotalQ.map (makeValid mods)
   let qtotQ := makeValid mods (qQ.getD (czero mods.length))
   let qtotR := makeValid mods (csub a.qtotal qtotQ)
   let qd := a.blocks.map (fun b => (b.qi, b.qj))
@@ -229,13 +234,17 @@ structure EigOut (α : Type) where
   v : BMat α
 deriving Repr, DecidableEq
 
+/-- `(rw, rv)` of one block after the optional sorting -/
+def eigFac [Zero α] (F : Nat → Blk α → List α × Mat α) (perm : Nat → List α → List Nat) (bi : Blk α × Nat) :
+    List α × Mat α :=
+  let f := F bi.2 bi.1
+  let pm := perm bi.2 f.1
+  (pm.map (fun i => f.1.getD i 0), f.2.takeCols pm)
+
 /-- per stored block of the blocked matrix: `(row qindex, (sorted eigenvalues, sorted eigenvectors))` -/
 def eigFacs [Zero α] (m : BMat α) (F : Nat → Blk α → List α × Mat α) (perm : Nat → List α → List Nat) :
     List (Nat × List α × Mat α) :=
-  m.blocks.zipIdx.map (fun bi =>
-    let f := F bi.2 bi.1
-    let pm := perm bi.2 f.1
-    (bi.1.qi, (pm.map (fun i => f.1.getD i 0), f.2.takeCols pm)))
+  m.blocks.zipIdx.map (fun bi => (bi.1.qi, eigFac F perm bi))
 
 /-- the loop of `_eig_worker` on the completely blocked matrix `m`: `resv = diag(1.0, leg0)` with the blocks of the
 stored sectors replaced, `resw = 0` with their slices replaced. -/
